@@ -187,3 +187,1138 @@ def tabulated_solids():
         for name, rec in data.items():
             out.append((fn, name, np.array(rec["vertices"], dtype=float)))
     return out
+
+
+# --------------------------------------------------------------------------- simple polygons (lead: C04/C02/C09)
+
+
+def _frac(x):
+    from fractions import Fraction
+    return Fraction(x)
+
+
+def ear_clip_exact(pts):
+    """Exact (Fraction) ear clipping of a simple polygon given as a list of (x, y) floats/ints.
+    Returns index triples (counter-clockwise triangles if the polygon is ccw, clockwise otherwise),
+    or None if the polygon is not simple / degenerate."""
+    from fractions import Fraction
+    P = [(Fraction(x), Fraction(y)) for x, y in pts]
+    n = len(P)
+    idx = list(range(n))
+
+    def cross(o, a, b):
+        return (a[0] - o[0]) * (b[1] - o[1]) - (a[1] - o[1]) * (b[0] - o[0])
+
+    area2 = sum(P[i][0] * P[(i + 1) % n][1] - P[(i + 1) % n][0] * P[i][1] for i in range(n))
+    if area2 == 0:
+        return None
+    sgn = 1 if area2 > 0 else -1
+    tris = []
+    guard = 0
+    while len(idx) > 3:
+        guard += 1
+        if guard > 10 * n * n:
+            return None
+        m = len(idx)
+        for k in range(m):
+            i0, i1, i2 = idx[(k - 1) % m], idx[k], idx[(k + 1) % m]
+            a, b, c = P[i0], P[i1], P[i2]
+            if sgn * cross(a, b, c) <= 0:
+                continue
+            ok = True
+            for j in idx:
+                if j in (i0, i1, i2):
+                    continue
+                p = P[j]
+                d1 = sgn * cross(a, b, p)
+                d2 = sgn * cross(b, c, p)
+                d3 = sgn * cross(c, a, p)
+                if d1 >= 0 and d2 >= 0 and d3 >= 0:
+                    ok = False
+                    break
+            if ok:
+                tris.append((i0, i1, i2))
+                del idx[k]
+                break
+        else:
+            return None
+    tris.append(tuple(idx))
+    return tris
+
+
+def _segments_cross_exact(p1, p2, p3, p4):
+    from fractions import Fraction
+
+    def orient(a, b, c):
+        v = (b[0] - a[0]) * (c[1] - a[1]) - (b[1] - a[1]) * (c[0] - a[0])
+        return (v > 0) - (v < 0)
+
+    def on(a, b, c):
+        return min(a[0], b[0]) <= c[0] <= max(a[0], b[0]) and min(a[1], b[1]) <= c[1] <= max(a[1], b[1])
+
+    o1, o2, o3, o4 = orient(p1, p2, p3), orient(p1, p2, p4), orient(p3, p4, p1), orient(p3, p4, p2)
+    if o1 != o2 and o3 != o4:
+        return True
+    if o1 == 0 and on(p1, p2, p3):
+        return True
+    if o2 == 0 and on(p1, p2, p4):
+        return True
+    if o3 == 0 and on(p3, p4, p1):
+        return True
+    if o4 == 0 and on(p3, p4, p2):
+        return True
+    return False
+
+
+def is_simple_exact(pts):
+    from fractions import Fraction
+    P = [(Fraction(x), Fraction(y)) for x, y in pts]
+    n = len(P)
+    if len(set(P)) != n:
+        return False
+    for i in range(n):
+        for j in range(i + 1, n):
+            if j == i + 1 or (i == 0 and j == n - 1):
+                # adjacent: may only share the common vertex
+                a, b = P[i], P[(i + 1) % n]
+                c, d = P[j], P[(j + 1) % n]
+                shared = b if j == i + 1 else a
+                other1 = a if j == i + 1 else b
+                other2 = d if j == i + 1 else c
+                # collinear overlap?
+                v = (other1[0] - shared[0]) * (other2[1] - shared[1]) - (other1[1] - shared[1]) * (other2[0] - shared[0])
+                dot = (other1[0] - shared[0]) * (other2[0] - shared[0]) + (other1[1] - shared[1]) * (other2[1] - shared[1])
+                if v == 0 and dot > 0:
+                    return False
+                continue
+            if _segments_cross_exact(P[i], P[(i + 1) % n], P[j], P[(j + 1) % n]):
+                return False
+    return True
+
+
+def polygon2d(rng, kind=None):
+    """A simple polygon in 2-D (counter-clockwise), O(1) size, coordinates on a 1/64 grid so that
+    exact rational answers exist. Returns (kind, (n,2) array)."""
+    kinds = ["star", "comb", "spiral", "lattice", "convex", "rect", "triangle", "reflex_first"]
+    kind = kind or kinds[int(rng.integers(len(kinds)))]
+    for _ in range(200):
+        if kind in ("star", "reflex_first"):
+            n = int(rng.integers(4, 41))
+            t = np.sort(rng.uniform(0, 2 * np.pi, size=n))
+            if np.min(np.diff(np.r_[t, t[0] + 2 * np.pi])) < 0.02:
+                continue
+            r = rng.uniform(0.3, 1.0, size=n)
+            p = np.c_[r * np.cos(t), r * np.sin(t)]
+            if kind == "reflex_first":
+                # make vertex 1 a reflex corner (the normal is computed from vertices 0,1,2)
+                p[1] = 0.15 * p[1] / np.linalg.norm(p[1])
+        elif kind == "convex":
+            n = int(rng.integers(3, 31))
+            t = np.sort(rng.uniform(0, 2 * np.pi, size=n))
+            if np.min(np.diff(np.r_[t, t[0] + 2 * np.pi])) < 0.05:
+                continue
+            ax = float(np.exp(rng.uniform(-1, 1)))
+            p = np.c_[ax * np.cos(t), np.sin(t) / ax]
+        elif kind == "triangle":
+            p = rng.uniform(-1, 1, size=(3, 2))
+        elif kind == "rect":
+            w, h = np.exp(rng.uniform(-1, 1, size=2))
+            p = np.array([[0, 0], [w, 0], [w, h], [0, h]], dtype=float)
+        elif kind == "lattice":
+            n = int(rng.integers(4, 13))
+            t = np.sort(rng.uniform(0, 2 * np.pi, size=n))
+            r = rng.uniform(2, 6, size=n)
+            p = np.round(np.c_[r * np.cos(t), r * np.sin(t)])
+        elif kind == "comb":
+            teeth = int(rng.integers(2, 9))
+            w = 1.0
+            g = float(rng.uniform(0.2, 0.8))
+            hs = rng.uniform(0.5, 2.0, size=teeth)
+            pts = [(0.0, 0.0)]
+            x = 0.0
+            pts = [(teeth * (w + g) - g, -0.5), ]
+            pts = [(0.0, -0.5), (teeth * (w + g) - g, -0.5)]
+            # go back along the top from right to left
+            top = []
+            for k in range(teeth):
+                x0 = k * (w + g)
+                top += [(x0, 0.0), (x0, hs[k]), (x0 + w, hs[k]), (x0 + w, 0.0)]
+            top = top[::-1]
+            pts += top
+            p = np.array(pts, dtype=float)
+        elif kind == "spiral":
+            turns = int(rng.integers(1, 4))
+            m = 6 * turns + int(rng.integers(2, 6))
+            th = np.linspace(0.0, 2 * np.pi * turns, m)
+            r_out = 0.2 + 0.25 * th / (2 * np.pi) + 0.11
+            r_in = 0.2 + 0.25 * th / (2 * np.pi)
+            outer = np.c_[r_out * np.cos(th), r_out * np.sin(th)]
+            inner = np.c_[r_in * np.cos(th), r_in * np.sin(th)][::-1]
+            p = np.vstack([outer, inner])
+        else:
+            raise ValueError(kind)
+        if kind != "lattice":
+            p = np.round(p * 64) / 64
+        if len(p) > 40 or len(p) < 3:
+            continue
+        if len(np.unique(p, axis=0)) != len(p):
+            continue
+        if not is_simple_exact(p.tolist()):
+            continue
+        a2 = float(np.sum(p[:, 0] * np.roll(p[:, 1], -1) - np.roll(p[:, 0], -1) * p[:, 1]))
+        if abs(a2) < 1e-3:
+            continue
+        if a2 < 0:
+            p = p[::-1].copy()
+        if kind in ("convex", "rect", "triangle"):
+            # strictly convex with a margin (every corner turns left by a clear amount)
+            e1 = np.roll(p, -1, axis=0) - p
+            e2 = np.roll(p, -2, axis=0) - np.roll(p, -1, axis=0)
+            turn = e1[:, 0] * e2[:, 1] - e1[:, 1] * e2[:, 0]
+            if np.min(turn / (np.linalg.norm(e1, axis=1) * np.linalg.norm(e2, axis=1))) < 1e-2:
+                continue
+        # no three consecutive collinear vertices at vertex 0,1,2 (normal from the first corner)
+        c = (p[2, 0] - p[1, 0]) * (p[0, 1] - p[1, 1]) - (p[2, 1] - p[1, 1]) * (p[0, 0] - p[1, 0])
+        if abs(c) < 1e-6:
+            continue
+        return kind, p
+    raise RuntimeError("could not generate polygon of kind %s" % kind)
+
+
+def embed_polygon(rng, p2, plane="random", offset_diams=None, scale=1.0):
+    """Embed a 2-D polygon in 3-space. Returns (verts3 (n,3), frame dict with origin o, u, w, n)."""
+    p2 = np.asarray(p2, dtype=float) * scale
+    if plane == "xy":
+        Rm = np.eye(3)
+    else:
+        Rm = random_rotation(rng)
+    u, w, n = Rm[:, 0], Rm[:, 1], Rm[:, 2]
+    d = float(np.max(np.linalg.norm(p2[:, None] - p2[None], axis=-1)))
+    if offset_diams is None:
+        offset_diams = 0.0 if rng.random() < 0.3 else float(rng.uniform(0, 10))
+    if plane == "xy":
+        direction = np.array([rng.normal(), rng.normal(), 0.0])
+    else:
+        direction = rng.normal(size=3)
+    direction /= np.linalg.norm(direction)
+    o = direction * offset_diams * d
+    if plane == "xy":
+        o = np.round(o * 64) / 64
+    v = o[None, :] + p2[:, :1] * u[None, :] + p2[:, 1:2] * w[None, :]
+    return v, {"o": o, "u": u, "w": w, "n": n, "offset_diams": offset_diams, "plane": plane}
+
+
+# --------------------------------------------------------------------------- C15 (constructors)
+# Everything below is used by harness/c15.py only. Exact classification is done on the 2-D generating
+# coordinates with integer arithmetic (doubles are dyadic rationals), margins in floating point.
+
+
+def c15_int_coords(pts):
+    """Exact integer coordinates of float points (common power-of-two scaling)."""
+    from fractions import Fraction
+    fr = [[Fraction(float(c)) for c in p] for p in pts]
+    den = max(c.denominator for p in fr for c in p)
+    return [[int(c * den) for c in p] for p in fr]
+
+
+def c15_orient(a, b, c):
+    return (b[0] - a[0]) * (c[1] - a[1]) - (b[1] - a[1]) * (c[0] - a[0])
+
+
+def c15_on_seg(a, b, p):
+    """p lies on the closed segment ab (exact when the coordinates are ints/Fractions)."""
+    return (c15_orient(a, b, p) == 0 and min(a[0], b[0]) <= p[0] <= max(a[0], b[0])
+            and min(a[1], b[1]) <= p[1] <= max(a[1], b[1]))
+
+
+def c15_seg_meet(a, b, c, d):
+    """closed segments ab and cd have a common point"""
+    o1, o2 = c15_orient(a, b, c), c15_orient(a, b, d)
+    o3, o4 = c15_orient(c, d, a), c15_orient(c, d, b)
+    if ((o1 > 0 and o2 < 0) or (o1 < 0 and o2 > 0)) and ((o3 > 0 and o4 < 0) or (o3 < 0 and o4 > 0)):
+        return True
+    return c15_on_seg(a, b, c) or c15_on_seg(a, b, d) or c15_on_seg(c, d, a) or c15_on_seg(c, d, b)
+
+
+def c15_exact_simple(pts2):
+    """Index based definition: distinct vertices, no two non-adjacent edges of the closed cycle meet,
+    adjacent edges meet only in their shared vertex. Exact (integer arithmetic)."""
+    P = c15_int_coords(pts2)
+    n = len(P)
+    if n < 3 or len(set(map(tuple, P))) != n:
+        return False
+    for i in range(n):
+        a, b = P[i], P[(i + 1) % n]
+        for j in range(i + 1, n):
+            c, d = P[j], P[(j + 1) % n]
+            if j == i + 1:            # share b == c : path a -> b -> d
+                if c15_on_seg(a, b, d) or c15_on_seg(b, d, a):
+                    return False
+            elif i == 0 and j == n - 1:  # share d == a : path c -> a -> b
+                if c15_on_seg(c, a, b) or c15_on_seg(a, b, c):
+                    return False
+            elif c15_seg_meet(a, b, c, d):
+                return False
+    return True
+
+
+def _c15_seg_seg_dist(a, b, c, d):
+    """float distance between two disjoint 2-D segments (min of the four point-segment distances)"""
+    def pd(p, u, v):
+        w = v - u
+        t = np.clip(np.dot(p - u, w) / np.dot(w, w), 0.0, 1.0)
+        return float(np.linalg.norm(p - (u + t * w)))
+    return min(pd(a, c, d), pd(b, c, d), pd(c, a, b), pd(d, a, b))
+
+
+def c15_corner_sines(p):
+    """|sin| of the corner angle at every vertex i (between p[i-1]-p[i] and p[i+1]-p[i])"""
+    p = np.asarray(p, dtype=float)
+    a = np.roll(p, 1, axis=0) - p
+    b = np.roll(p, -1, axis=0) - p
+    cr = a[:, 0] * b[:, 1] - a[:, 1] * b[:, 0]
+    return np.abs(cr) / (np.linalg.norm(a, axis=1) * np.linalg.norm(b, axis=1))
+
+
+def c15_simple_margin(p):
+    """margin (relative to the diameter) by which a simple polygon stays simple: minimum over the distance of
+    non-adjacent edges / diameter and the corner sines."""
+    p = np.asarray(p, dtype=float)
+    n = len(p)
+    diam = float(np.max(np.linalg.norm(p[:, None, :] - p[None, :, :], axis=-1)))
+    m = float(np.min(c15_corner_sines(p)))
+    for i in range(n):
+        for j in range(i + 1, n):
+            if j == i + 1 or (i == 0 and j == n - 1):
+                continue
+            m = min(m, _c15_seg_seg_dist(p[i], p[(i + 1) % n], p[j], p[(j + 1) % n]) / diam)
+    return m
+
+
+def c15_crossing_margin(p):
+    """largest margin of a proper crossing of two non-adjacent edges: min(distance of the crossing point to the
+    four end points / diameter, |sin| of the angle between the edges); 0 if no proper crossing."""
+    p = np.asarray(p, dtype=float)
+    n = len(p)
+    diam = float(np.max(np.linalg.norm(p[:, None, :] - p[None, :, :], axis=-1)))
+    best = 0.0
+    for i in range(n):
+        a, b = p[i], p[(i + 1) % n]
+        for j in range(i + 1, n):
+            if j == i + 1 or (i == 0 and j == n - 1):
+                continue
+            c, d = p[j], p[(j + 1) % n]
+            u, w = b - a, d - c
+            den = u[0] * w[1] - u[1] * w[0]
+            if den == 0:
+                continue
+            s = ((c[0] - a[0]) * w[1] - (c[1] - a[1]) * w[0]) / den
+            t = ((c[0] - a[0]) * u[1] - (c[1] - a[1]) * u[0]) / den
+            if not (0 < s < 1 and 0 < t < 1):
+                continue
+            x = a + s * u
+            m = min(min(np.linalg.norm(x - q) for q in (a, b, c, d)) / diam,
+                    abs(den) / (np.linalg.norm(u) * np.linalg.norm(w)))
+            best = max(best, float(m))
+    return best
+
+
+def c15_simple_base(rng, kind=None, n=None):
+    """2-D simple polygon (counter-clockwise), 3..40 vertices, O(1) size. Returns (kind, (n,2) array)."""
+    kinds = ["star", "comb", "spiral", "ngon", "convex", "zigzag"]
+    kind = kind or kinds[int(rng.integers(len(kinds)))]
+    if kind == "star":
+        n = n or int(rng.integers(3, 41))
+        t = 2 * np.pi * (np.arange(n) + 0.8 * rng.random(n)) / n + rng.uniform(0, 2 * np.pi)
+        r = rng.uniform(0.35, 1.0, size=n)
+        p = np.stack([r * np.cos(t), r * np.sin(t)], axis=1)
+    elif kind == "ngon":
+        n = n or int(rng.integers(3, 41))
+        p = ngon(n, phase=rng.uniform(0, 2 * np.pi))
+    elif kind == "convex":
+        n = n or int(rng.integers(3, 41))
+        t = np.sort(rng.uniform(0, 2 * np.pi, size=n))
+        ax = np.array([1.0, float(np.exp(rng.uniform(-1.5, 0)))])
+        p = np.stack([np.cos(t), np.sin(t)], axis=1) * ax
+    elif kind == "comb":
+        k = int(rng.integers(1, 38)) if n is None else max(1, n - 3)
+        x = np.cumsum(rng.uniform(0.5, 1.5, size=k + 1))
+        hi = rng.uniform(0.6, 1.0, size=k + 1) * k ** 0.5
+        lo = rng.uniform(0.1, 0.3, size=k + 1) * k ** 0.5
+        y = np.where((np.arange(k + 1) + int(rng.integers(2))) % 2 == 0, hi, lo)
+        b = float(rng.uniform(0.2, 0.5)) * k ** 0.5
+        top = np.stack([x, y], axis=1)[::-1]
+        p = np.vstack([[[x[0], -b]], [[x[-1], -b]], top])
+    elif kind == "zigzag":
+        # x-monotone band: upper chain and the same chain shifted down (a thick polyline)
+        k = int(rng.integers(2, 21)) if n is None else max(2, n // 2)
+        x = np.cumsum(rng.uniform(0.5, 1.5, size=k))
+        y = np.cumsum(rng.uniform(-1.0, 1.0, size=k))
+        w = float(rng.uniform(0.3, 0.8))
+        up = np.stack([x, y + w], axis=1)
+        dn = np.stack([x, y - w], axis=1)
+        p = np.vstack([dn, up[::-1]])
+    elif kind == "spiral":
+        m = int(rng.integers(4, 21)) if n is None else max(4, n // 2)
+        turns = float(rng.uniform(0.4, max(0.5, min(2.5, (m - 2) / 7.0))))
+        th = np.linspace(0, 2 * np.pi * turns, m)
+        th = th + np.r_[0, rng.uniform(-0.2, 0.2, size=m - 2) * (th[1] - th[0]), 0]
+        g = 0.8 / turns              # radial growth per turn
+        r_out = 0.3 + g * th / (2 * np.pi)
+        w = float(rng.uniform(0.25, 0.5)) * min(g, 0.3)
+        ph = rng.uniform(0, 2 * np.pi)
+        outer = np.stack([r_out * np.cos(th + ph), r_out * np.sin(th + ph)], axis=1)
+        inner = np.stack([(r_out - w) * np.cos(th + ph), (r_out - w) * np.sin(th + ph)], axis=1)
+        p = np.vstack([outer, inner[::-1]])
+    else:
+        raise ValueError(kind)
+    p = np.asarray(p, dtype=float)
+    p = p - p.mean(axis=0)
+    return kind, p
+
+
+def c15_simple_polygon(rng, kind=None, margin=1e-3, first_corner=0.05):
+    """A clearly simple 2-D polygon: exact oracle says simple, margin (edge separation / corner sines) > `margin`,
+    first corner |sin| >= `first_corner` (the constructor derives its normal from it), random orientation and
+    random starting vertex. Returns (p2, info)."""
+    for _ in range(200):
+        kind_, p = c15_simple_base(rng, kind)
+        if len(p) < 3 or len(p) > 40:
+            continue
+        if not c15_exact_simple(p):
+            continue
+        mg = c15_simple_margin(p)
+        if mg <= margin:
+            continue
+        cw = bool(rng.random() < 0.5)
+        if cw:
+            p = p[::-1]
+        p = np.roll(p, -int(rng.integers(len(p))), axis=0)
+        s = c15_corner_sines(p)            # s[1] is the corner (v0, v1, v2)
+        good = np.nonzero(s >= first_corner)[0]
+        if len(good) == 0:
+            continue
+        k = int(good[int(rng.integers(len(good)))])
+        p = np.roll(p, -(k - 1), axis=0)
+        return np.ascontiguousarray(p), {"kind": kind_, "n": len(p), "clockwise": cw, "margin": mg}
+    raise RuntimeError("could not generate a simple polygon")
+
+
+def c15_crossing_polygon(rng, margin=1e-2):
+    """A clearly self-intersecting cycle: a simple polygon with two vertices swapped such that two non-adjacent
+    edges cross properly with margin; vertices stay distinct. Returns (p2, info)."""
+    for _ in range(400):
+        p, info = c15_simple_polygon(rng)
+        n = len(p)
+        if n < 4:
+            continue
+        for _ in range(20):
+            i, j = (int(x) for x in rng.choice(n, size=2, replace=False))
+            q = p.copy()
+            q[[i, j]] = q[[j, i]]
+            if c15_exact_simple(q):
+                continue
+            mg = c15_crossing_margin(q)
+            if mg > margin:
+                return q, dict(info, swapped=[i, j], crossing_margin=mg)
+    raise RuntimeError("could not generate a crossing polygon")
+
+
+def c15_embed(rng, p2, mode=None):
+    """Embed 2-D points in a plane of R^3. mode: 'xy' (z = 0 exactly), 'xyz0' (z = const exactly),
+    'random' (random rotation, offset <= 10 diameters, scale 1e-3..1e3 through gen.place).
+    Returns (v3, info) with info['n_true'] the unit normal of the generating frame (+z image)."""
+    mode = mode or ["xy", "xyz0", "random", "random"][int(rng.integers(4))]
+    p2 = np.asarray(p2, dtype=float)
+    v = np.c_[p2, np.zeros(len(p2))]
+    if mode == "xy":
+        return v, {"mode": mode, "n_true": [0.0, 0.0, 1.0], "scale": 1.0}
+    if mode == "xyz0":
+        v[:, 2] = float(np.round(rng.uniform(-5, 5) * 16) / 16)
+        return v, {"mode": mode, "n_true": [0.0, 0.0, 1.0], "scale": 1.0}
+    scale = 1.0 if rng.random() < 0.6 else float(10 ** rng.uniform(-3, 3))
+    R = random_rotation(rng)
+    w = (v * scale) @ R.T
+    d = diameter(w)
+    off = 0.0 if rng.random() < 0.3 else float(rng.uniform(0, 10))
+    direction = rng.normal(size=3)
+    direction /= np.linalg.norm(direction)
+    w = w + direction * off * d
+    return w, {"mode": mode, "n_true": (R @ np.array([0.0, 0.0, 1.0])).tolist(), "scale": scale,
+               "offset_diams": off}
+
+
+def c15_width(v):
+    """lower bound on the extent of a 3-D point set in its thinnest direction: sigma_min / sqrt(n)"""
+    v = np.asarray(v, dtype=float)
+    s = np.linalg.svd(v - v.mean(axis=0), compute_uv=False)
+    return float(s[-1] / np.sqrt(len(v)))
+
+
+def c15_lift(rng, v3, n_true, frac=None):
+    """Move one vertex off the plane by > 1 % of the size (frac in [0.011, 0.5] of the diameter)."""
+    v = np.array(v3, dtype=float)
+    d = diameter(v)
+    k = int(rng.integers(len(v)))
+    frac = frac or float(np.exp(rng.uniform(np.log(0.011), np.log(0.5))))
+    sgn = 1.0 if rng.random() < 0.5 else -1.0
+    v[k] = v[k] + sgn * frac * d * np.asarray(n_true)
+    return v, {"lifted": k, "frac": sgn * frac}
+
+
+def c15_convex_polygon(rng, n=None):
+    """2-D point set in clear convex position (every point at depth > 1e-3 diam outside the hull of the others,
+    checked exactly for being a strict hull vertex), in counter-clockwise order."""
+    for _ in range(200):
+        kind = ["ngon", "convex"][int(rng.integers(2))]
+        _, p = c15_simple_base(rng, kind, n=n)
+        if c15_convex_depth(p) > 1e-3:
+            return p, {"kind": kind, "n": len(p)}
+    raise RuntimeError("could not generate a convex polygon")
+
+
+def c15_convex_depth(p):
+    """for a ccw polygon: min over vertices of the distance of vertex i to the line through its neighbours
+    (positive iff strictly convex at i) divided by the diameter."""
+    p = np.asarray(p, dtype=float)
+    a = np.roll(p, 1, axis=0)
+    b = np.roll(p, -1, axis=0)
+    e = b - a
+    cr = e[:, 0] * (p[:, 1] - a[:, 1]) - e[:, 1] * (p[:, 0] - a[:, 0])
+    # for a ccw convex polygon vertex i lies to the RIGHT of a->b, i.e. cr < 0
+    dist = -cr / np.linalg.norm(e, axis=1)
+    diam = float(np.max(np.linalg.norm(p[:, None, :] - p[None, :, :], axis=-1)))
+    return float(np.min(dist) / diam)
+
+
+def c15_interior_point2(rng, p, depth=1e-3):
+    """a point inside the ccw convex polygon p deeper than `depth` diameters (distance to every edge line)."""
+    p = np.asarray(p, dtype=float)
+    diam = float(np.max(np.linalg.norm(p[:, None, :] - p[None, :, :], axis=-1)))
+    for _ in range(200):
+        w = rng.dirichlet(np.ones(len(p)) * float(rng.choice([0.3, 1.0, 3.0])))
+        x = w @ p
+        a, b = p, np.roll(p, -1, axis=0)
+        e = b - a
+        dist = (e[:, 0] * (x[1] - a[:, 1]) - e[:, 1] * (x[0] - a[:, 0])) / np.linalg.norm(e, axis=1)
+        if np.min(dist) > depth * diam and np.min(np.linalg.norm(p - x, axis=1)) > depth * diam:
+            return x, float(np.min(dist) / diam)
+    raise RuntimeError("no interior point")
+
+
+def c15_interior_point3(rng, v, depth=1e-3):
+    """a point inside conv(v) deeper than `depth` diameters (signed distance to every facet plane)."""
+    v = np.asarray(v, dtype=float)
+    h = ConvexHull(v)
+    d = diameter(v)
+    for _ in range(200):
+        w = rng.dirichlet(np.ones(len(v)) * float(rng.choice([0.3, 1.0, 3.0])))
+        x = w @ v
+        dist = -(h.equations[:, :3] @ x + h.equations[:, 3])
+        if np.min(dist) > depth * d:
+            return x, float(np.min(dist) / d)
+    raise RuntimeError("no interior point")
+
+
+# --------------------------------------------------------------------------- C06 (2-D containment)
+# Used by harness/c06.py only. Polygons and query points live on an integer grid (coordinate =
+# integer * 2**(e-26), exactly representable), so every classification is exact integer arithmetic.
+
+C06_GRID = 26
+
+
+def c06_orient(a, b, c):
+    """Exact orientation determinant of integer points (> 0: c left of a->b)."""
+    return (b[0] - a[0]) * (c[1] - a[1]) - (b[1] - a[1]) * (c[0] - a[0])
+
+
+def c06_on_segment(a, b, p):
+    """p on the closed segment [a, b] (integer points)."""
+    if c06_orient(a, b, p) != 0:
+        return False
+    return (a[0] - p[0]) * (b[0] - p[0]) + (a[1] - p[1]) * (b[1] - p[1]) <= 0
+
+
+def c06_segments_meet(a, b, c, d):
+    """closed segments [a,b], [c,d] share a point (integer points)."""
+    def sg(v):
+        return (v > 0) - (v < 0)
+    o1, o2 = sg(c06_orient(a, b, c)), sg(c06_orient(a, b, d))
+    o3, o4 = sg(c06_orient(c, d, a)), sg(c06_orient(c, d, b))
+    if o1 * o2 < 0 and o3 * o4 < 0:
+        return True
+    return (c06_on_segment(a, b, c) or c06_on_segment(a, b, d)
+            or c06_on_segment(c, d, a) or c06_on_segment(c, d, b))
+
+
+def c06_is_simple(G):
+    """Exact simplicity of the closed polygon G (list of integer pairs): distinct vertices,
+    non-adjacent edges disjoint, adjacent edges meet only in their common vertex, no straight corner."""
+    n = len(G)
+    if n < 3 or len(set(map(tuple, G))) != n:
+        return False
+    for i in range(n):
+        a, b, c = G[i - 1], G[i], G[(i + 1) % n]
+        if c06_orient(a, b, c) == 0:
+            return False
+    for i in range(n):
+        a, b = G[i], G[(i + 1) % n]
+        for j in range(i + 2, n):
+            if i == 0 and j == n - 1:
+                continue
+            if c06_segments_meet(a, b, G[j], G[(j + 1) % n]):
+                return False
+    return True
+
+
+def c06_area2(G):
+    n = len(G)
+    return sum(G[i][0] * G[(i + 1) % n][1] - G[(i + 1) % n][0] * G[i][1] for i in range(n))
+
+
+def c06_ear_clip(G):
+    """Exact ear clipping of a simple counter-clockwise integer polygon. Returns index triples
+    (all counter-clockwise) or None."""
+    n = len(G)
+    idx = list(range(n))
+    tris = []
+    while len(idx) > 3:
+        m = len(idx)
+        for k in range(m):
+            i0, i1, i2 = idx[k - 1], idx[k], idx[(k + 1) % m]
+            a, b, c = G[i0], G[i1], G[i2]
+            if c06_orient(a, b, c) <= 0:
+                continue
+            ok = True
+            for j in idx:
+                if j == i0 or j == i1 or j == i2:
+                    continue
+                p = G[j]
+                if c06_orient(a, b, p) >= 0 and c06_orient(b, c, p) >= 0 and c06_orient(c, a, p) >= 0:
+                    ok = False
+                    break
+            if ok:
+                tris.append((i0, i1, i2))
+                del idx[k]
+                break
+        else:
+            return None
+    if c06_orient(G[idx[0]], G[idx[1]], G[idx[2]]) <= 0:
+        return None
+    tris.append(tuple(idx))
+    return tris
+
+
+def c06_chain_ok(n, tris):
+    """The boundary chain of the triangles is the polygon 0->1->...->n-1->0: after cancelling each
+    directed edge against its reverse exactly the n polygon edges remain, once each."""
+    cnt = {}
+    for t in tris:
+        for a, b in ((t[0], t[1]), (t[1], t[2]), (t[2], t[0])):
+            if cnt.get((b, a), 0) > 0:
+                cnt[(b, a)] -= 1
+            else:
+                cnt[(a, b)] = cnt.get((a, b), 0) + 1
+    left = {e: c for e, c in cnt.items() if c}
+    return left == {(i, (i + 1) % n): 1 for i in range(n)}
+
+
+def c06_base_shape(rng, kind):
+    """Float (n,2) counter-clockwise outline of O(1) size."""
+    if kind == "star":
+        n = int(rng.integers(3, 41))
+        t = 2 * np.pi * (np.arange(n) + rng.uniform(0, 0.8, size=n)) / n
+        r = rng.uniform(0.3, 1.0, size=n)
+        return np.c_[r * np.cos(t), r * np.sin(t)]
+    if kind == "comb":
+        k = int(rng.integers(0, 10))                  # k gaps, k+1 teeth, 4k+4 vertices
+        xs = np.cumsum(np.r_[0.0, rng.uniform(0.1, 0.3, size=2 * k + 1)])
+        H = rng.uniform(0.5, 1.0, size=k + 1)
+        g = rng.uniform(0.1, 0.4, size=k)
+        pts = [(xs[0], 0.0), (xs[-1], 0.0)]
+        for j in range(k, -1, -1):                    # teeth from right to left along the top
+            pts += [(xs[2 * j + 1], H[j]), (xs[2 * j], H[j])]
+            if j > 0:
+                pts += [(xs[2 * j], g[j - 1]), (xs[2 * j - 1], g[j - 1])]
+        return np.array(pts, dtype=float)
+    if kind == "spiral":
+        m = int(rng.integers(4, 21))
+        turns = float(rng.uniform(0.6, 2.5))
+        th = np.linspace(0.0, 2 * np.pi * turns, m)
+        pitch = 0.3
+        w = float(rng.uniform(0.08, 0.2))
+        rc = 0.25 + pitch * th / (2 * np.pi)
+        outer = np.c_[(rc + w / 2) * np.cos(th), (rc + w / 2) * np.sin(th)]
+        inner = np.c_[(rc - w / 2) * np.cos(th), (rc - w / 2) * np.sin(th)][::-1]
+        return np.vstack([outer, inner])
+    if kind == "convex":
+        n = int(rng.integers(3, 41))
+        t = 2 * np.pi * (np.arange(n) + rng.uniform(0, 0.6, size=n)) / n
+        ax = float(np.exp(rng.uniform(-1, 1)))
+        return np.c_[ax * np.cos(t), np.sin(t) / ax]
+    if kind.startswith("c04:"):
+        _, p = polygon2d(rng, kind[4:])
+        return np.asarray(p, dtype=float)
+    raise ValueError(kind)
+
+
+C06_KINDS = ["star", "comb", "spiral", "convex", "c04:star", "c04:comb", "c04:spiral", "c04:lattice",
+             "c04:convex", "c04:rect", "c04:triangle", "c04:reflex_first"]
+
+
+def c06_simple_polygon(rng, kind=None):
+    """A simple polygon on the integer grid: dict with
+    kind, G (list of [X, Y] python ints, counter-clockwise), e (coordinates are G * 2**(e - 26)),
+    tris (index triples of an exact ear clipping, counter-clockwise), turn (in-plane float rotation
+    applied before rounding), quarter (number of exact quarter turns), offset."""
+    kind = kind or C06_KINDS[int(rng.integers(len(C06_KINDS)))]
+    for _ in range(200):
+        try:
+            S = c06_base_shape(rng, kind)
+        except RuntimeError:
+            continue
+        if not (3 <= len(S) <= 40):
+            continue
+        turn = 0.0 if rng.random() < 0.5 else float(rng.uniform(0, 2 * np.pi))
+        if turn:
+            cs, sn = np.cos(turn), np.sin(turn)
+            S = S @ np.array([[cs, sn], [-sn, cs]])
+        G = [[int(v) for v in row] for row in np.rint(S * 2.0 ** C06_GRID).astype(np.int64).tolist()]
+        quarter = int(rng.integers(4))
+        for _q in range(quarter):
+            G = [[-y, x] for x, y in G]
+        if c06_area2(G) < 0:
+            G = G[::-1]
+        if not c06_is_simple(G):
+            continue
+        xs = [p[0] for p in G]
+        ys = [p[1] for p in G]
+        w, h = max(xs) - min(xs), max(ys) - min(ys)
+        u = rng.random()
+        if u < 0.3:        # straddle the origin: the polygon itself meets all four quadrants
+            off = [-(min(xs) + w // 2), -(min(ys) + h // 2)]
+        elif u < 0.4:
+            off = [0, 0]
+        else:              # anywhere within 5 sizes, any quadrant
+            s = max(w, h)
+            off = [int(rng.integers(-5 * s, 5 * s + 1)), int(rng.integers(-5 * s, 5 * s + 1))]
+        G = [[x + off[0], y + off[1]] for x, y in G]
+        tris = c06_ear_clip(G)
+        if tris is None or not c06_chain_ok(len(G), tris):
+            continue
+        if sum(c06_orient(G[a], G[b], G[c]) for a, b, c in tris) != c06_area2(G):
+            continue
+        e = 0 if rng.random() < 0.6 else int(rng.integers(-10, 11))
+        return {"kind": kind, "G": G, "e": e, "tris": [list(t) for t in tris], "turn": turn,
+                "quarter": quarter, "offset": off}
+    raise RuntimeError("c06: could not generate a polygon of kind %s" % kind)
+
+
+def c06_query_points(rng, poly, n):
+    """n query points on the polygon's grid, as [X, Y, class]: uniform in the enlarged bounding box,
+    at a controlled distance from an edge / a vertex, sharing x and/or y with vertices, inside a
+    triangle of the triangulation."""
+    G = poly["G"]
+    tris = poly["tris"]
+    A = np.array(G, dtype=float)
+    lo, hi = A.min(axis=0), A.max(axis=0)
+    size = float(np.linalg.norm(hi - lo))
+    lo2, hi2 = lo - 0.25 * (hi - lo) - 1, hi + 0.25 * (hi - lo) + 1
+    nv = len(G)
+    areas = np.array([c06_orient(G[a], G[b], G[c]) for a, b, c in tris], dtype=float)
+    areas /= areas.sum()
+    out = []
+    classes = ["uniform", "near-edge", "near-vertex", "shared-x", "shared-y", "shared-xy", "triangle"]
+    for k in range(n):
+        cl = classes[k % len(classes)]
+        if cl == "uniform":
+            p = rng.uniform(lo2, hi2)
+        elif cl == "near-edge":
+            i = int(rng.integers(nv))
+            a, b = A[i], A[(i + 1) % nv]
+            t = float(rng.uniform(0.02, 0.98))
+            d = b - a
+            nrm = np.array([d[1], -d[0]]) / np.linalg.norm(d)
+            dist = size * 10 ** float(rng.uniform(-6.5, -1.5)) * (1 if rng.random() < 0.5 else -1)
+            p = a + t * d + dist * nrm
+        elif cl == "near-vertex":
+            i = int(rng.integers(nv))
+            ang = float(rng.uniform(0, 2 * np.pi))
+            dist = size * 10 ** float(rng.uniform(-6.0, -2.0))
+            p = A[i] + dist * np.array([np.cos(ang), np.sin(ang)])
+        elif cl == "shared-x":
+            p = np.array([A[int(rng.integers(nv)), 0], rng.uniform(lo2[1], hi2[1])])
+        elif cl == "shared-y":
+            p = np.array([rng.uniform(lo2[0], hi2[0]), A[int(rng.integers(nv)), 1]])
+        elif cl == "shared-xy":
+            p = np.array([A[int(rng.integers(nv)), 0], A[int(rng.integers(nv)), 1]])
+        else:
+            a, b, c = tris[int(rng.choice(len(tris), p=areas))]
+            wts = rng.dirichlet([1.0, 1.0, 1.0])
+            p = wts[0] * A[a] + wts[1] * A[b] + wts[2] * A[c]
+        out.append([int(round(float(p[0]))), int(round(float(p[1]))), cl])
+    return out
+
+
+def c06_curved(rng):
+    """A circle or an ellipse: dict(shape, a, b, center, center_kind). a<b, a=b, a>b all occur."""
+    shape = "circle" if rng.random() < 0.35 else "ellipse"
+    a = float(10 ** rng.uniform(-2, 2))
+    rel = ["a<b", "a=b", "a>b"][int(rng.integers(3))]
+    if shape == "circle" or rel == "a=b":
+        b = a
+    elif rel == "a<b":
+        b = a * float(rng.uniform(1.1, 8))
+    else:
+        b = a / float(rng.uniform(1.1, 8))
+    ck = ["origin", "int", "float", "far"][int(rng.integers(4))]
+    m = max(a, b)
+    if ck == "origin":
+        c = [0, 0, 0]
+    elif ck == "int":
+        c = [int(v) for v in rng.integers(-5, 6, size=3)]
+    elif ck == "float":
+        c = [float(v) for v in rng.uniform(-2 * m, 2 * m, size=3)]
+    else:
+        c = [float(v) for v in rng.uniform(-10 * m, 10 * m, size=3)]
+    return {"shape": shape, "a": a, "b": b, "center": c, "center_kind": ck,
+            "rel": "a=b" if a == b else ("a<b" if a < b else "a>b")}
+
+
+def c06_curved_points(rng, sh, n):
+    """In-plane query points [x, y, z, class] (z equal to the centre's z): the four corners of the
+    bounding box pulled in by 10 % (outside the ellipse, inside the box), uniform in the enlarged box
+    (all four quadrants about the centre), at a controlled relative distance from the boundary,
+    sharing x or y with the centre."""
+    a, b = sh["a"], sh["b"]
+    c = [float(v) for v in sh["center"]]
+    m = max(a, b)
+    out = []
+    for sx in (1, -1):
+        for sy in (1, -1):
+            out.append([c[0] + sx * 0.9 * a, c[1] + sy * 0.9 * b, c[2], "corner%+d%+d" % (sx, sy)])
+    classes = ["uniform", "near-boundary", "shared-x", "shared-y", "box"]
+    for k in range(n):
+        cl = classes[k % len(classes)]
+        if cl == "uniform":
+            d = rng.uniform(-1.5 * m, 1.5 * m, size=2)
+        elif cl == "box":
+            d = rng.uniform(-1.2, 1.2, size=2) * np.array([a, b])
+        elif cl == "near-boundary":
+            th = float(rng.uniform(0, 2 * np.pi))
+            f = 1 + 10 ** float(rng.uniform(-6.5, -1.5)) * (1 if rng.random() < 0.5 else -1)
+            d = f * np.array([a * np.cos(th), b * np.sin(th)])
+        elif cl == "shared-x":
+            d = np.array([0.0, rng.uniform(-1.5 * b, 1.5 * b)])
+        else:
+            d = np.array([rng.uniform(-1.5 * a, 1.5 * a), 0.0])
+        out.append([c[0] + float(d[0]), c[1] + float(d[1]), c[2], cl])
+    return out
+
+
+# --------------------------------------------------------------------------- C05 (3-D containment)
+# Non-convex solids with a known decomposition (voxel solids, extruded polygons), rigid placements
+# that are returned as maps (so that query points generated in model coordinates can follow), and
+# point generators.  All functions are new (prefix c05_); nothing above is changed.
+
+
+def c05_signed_perm_rotation(rng):
+    """one of the 24 proper rotations that permute the axes (entries 0, +-1: exact in floating point)."""
+    while True:
+        perm = rng.permutation(3)
+        sg = rng.choice([-1.0, 1.0], size=3)
+        m = np.zeros((3, 3))
+        for i in range(3):
+            m[i, perm[i]] = sg[i]
+        if np.linalg.det(m) > 0:
+            return m
+
+
+def c05_placement(rng, exact=None):
+    """A rigid placement x -> s * R x + t as a dict {R, s, t, exact}.
+    exact=True: axis-permuting rotation, power-of-two scale, dyadic offset (model coordinates that are
+    small dyadic rationals stay exact, so coordinate ties survive the placement)."""
+    if exact is None:
+        exact = rng.random() < 0.5
+    if exact:
+        R = np.eye(3) if rng.random() < 0.4 else c05_signed_perm_rotation(rng)
+        s = float(2.0 ** int(rng.integers(-3, 4))) if rng.random() < 0.5 else 1.0
+        t = np.zeros(3) if rng.random() < 0.4 else rng.integers(-16, 17, size=3) * 0.25
+    else:
+        R = random_rotation(rng) if rng.random() < 0.85 else np.eye(3)
+        s = 1.0 if rng.random() < 0.5 else float(10 ** rng.uniform(-3, 3))
+        t = np.zeros(3) if rng.random() < 0.2 else rng.normal(size=3) * float(rng.uniform(0, 10)) * s
+    return {"R": R, "s": s, "t": np.asarray(t, dtype=float), "exact": bool(exact)}
+
+
+def c05_apply(pl, x):
+    x = np.asarray(x, dtype=float)
+    return pl["s"] * (x @ pl["R"].T) + pl["t"]
+
+
+_C05_VOXEL_SHAPES = {
+    # name: list of filled cells
+    "L": [(0, 0, 0), (1, 0, 0), (2, 0, 0), (0, 1, 0), (0, 2, 0)],
+    "U": [(0, 0, 0), (1, 0, 0), (2, 0, 0), (0, 1, 0), (2, 1, 0), (0, 2, 0), (2, 2, 0)],
+    "C": [(0, 0, 0), (1, 0, 0), (2, 0, 0), (0, 1, 0), (0, 2, 0), (1, 2, 0), (2, 2, 0)],
+    "T": [(0, 2, 0), (1, 2, 0), (2, 2, 0), (1, 1, 0), (1, 0, 0)],
+    "plus": [(1, 0, 0), (0, 1, 0), (1, 1, 0), (2, 1, 0), (1, 2, 0)],
+    "frame": [(i, j, 0) for i in range(3) for j in range(3) if (i, j) != (1, 1)],
+    "frame-thick": [(i, j, k) for i in range(4) for j in range(4) for k in range(2) if not (i in (1, 2) and j in (1, 2))],
+    "block222": [(i, j, k) for i in range(2) for j in range(2) for k in range(2)],
+    "block322": [(i, j, k) for i in range(3) for j in range(2) for k in range(2)],
+    "stairs": [(0, 0, 0), (1, 0, 0), (2, 0, 0), (1, 0, 1), (2, 0, 1), (2, 0, 2)],
+    "L3d": [(0, 0, 0), (1, 0, 0), (0, 1, 0), (0, 0, 1)],
+    "cup": [(i, j, 0) for i in range(3) for j in range(3)] + [(i, j, 1) for i in range(3) for j in range(3) if (i, j) != (1, 1)],
+    "cage": [(i, j, k) for i in range(3) for j in range(3) for k in range(3)
+             if sum(1 for a in (i, j, k) if a == 1) < 2],
+}
+
+
+def c05_voxel_boundary(cells):
+    """unit squares of the boundary of a set of cells: (verts int (V,3), faces list of 4 indices ccw seen
+    from outside), or None if the boundary is not a 2-manifold (edge- or vertex-only contacts)."""
+    cells = set(map(tuple, cells))
+    quads = []
+    # for axis a and side s the face corners ccw seen from outside
+    for (i, j, k) in sorted(cells):
+        for a in range(3):
+            for s in (0, 1):
+                nb = [i, j, k]
+                nb[a] += 1 if s else -1
+                if tuple(nb) in cells:
+                    continue
+                b, c = (a + 1) % 3, (a + 2) % 3
+                base = np.array([i, j, k])
+                corners = []
+                for (ub, uc) in ((0, 0), (1, 0), (1, 1), (0, 1)):
+                    p = base.copy()
+                    p[a] += s
+                    p[b] += ub
+                    p[c] += uc
+                    corners.append(tuple(int(x) for x in p))
+                if not s:
+                    corners = corners[::-1]
+                quads.append(corners)
+    verts = sorted(set(p for q in quads for p in q))
+    index = {p: n for n, p in enumerate(verts)}
+    faces = [[index[p] for p in q] for q in quads]
+    # manifold: every directed edge once, its reverse once
+    edges = {}
+    for f in faces:
+        for x, y in zip(f, f[1:] + f[:1]):
+            edges[(x, y)] = edges.get((x, y), 0) + 1
+    for (x, y), n in edges.items():
+        if n != 1 or edges.get((y, x), 0) != 1:
+            return None
+    # every vertex: its faces form one fan (connected through shared edges at the vertex)
+    for vi in range(len(verts)):
+        inc = [n for n, f in enumerate(faces) if vi in f]
+        parent = {n: n for n in inc}
+
+        def find(x):
+            while parent[x] != x:
+                x = parent[x]
+            return x
+        for a_ in inc:
+            for b_ in inc:
+                if a_ < b_:
+                    ea = set()
+                    fa = faces[a_]
+                    for x, y in zip(fa, fa[1:] + fa[:1]):
+                        if vi in (x, y):
+                            ea.add(frozenset((x, y)))
+                    fb = faces[b_]
+                    for x, y in zip(fb, fb[1:] + fb[:1]):
+                        if vi in (x, y) and frozenset((x, y)) in ea:
+                            parent[find(a_)] = find(b_)
+        if len(set(find(n) for n in inc)) != 1:
+            return None
+    return np.array(verts, dtype=float), faces
+
+
+# Kuhn subdivision of the unit cube into 6 tetrahedra (all share the diagonal 000-111)
+_C05_KUHN = [((0, 0, 0), tuple(np.eye(3, dtype=int)[p[0]]), tuple(np.eye(3, dtype=int)[p[0]] + np.eye(3, dtype=int)[p[1]]), (1, 1, 1))
+             for p in itertools.permutations(range(3))]
+
+
+def c05_voxel_solid(rng, kind=None):
+    """A voxel solid in model coordinates: dict(kind, cells, spacing, vertices (V,3), faces (unit squares,
+    outward ccw), tets (T,4,3) Kuhn tetrahedra of the filled cells, boxes (C,2,3) the filled cells)."""
+    names = list(_C05_VOXEL_SHAPES) + ["random"]
+    kind = kind or names[int(rng.integers(len(names)))]
+    for _ in range(100):
+        if kind == "random":
+            cells = {(0, 0, 0)}
+            target = int(rng.integers(3, 12))
+            while len(cells) < target:
+                c = list(cells)[int(rng.integers(len(cells)))]
+                a = int(rng.integers(3))
+                nb = list(c)
+                nb[a] += int(rng.choice([-1, 1]))
+                cells.add(tuple(nb))
+            lo = np.min(np.array(list(cells)), axis=0)
+            cells = sorted(tuple(int(x) for x in np.array(c) - lo) for c in cells)
+        else:
+            cells = list(_C05_VOXEL_SHAPES[kind])
+            # random axis relabelling of the template
+            perm = rng.permutation(3)
+            cells = sorted(tuple(int(c[perm[a]]) for a in range(3)) for c in cells)
+        res = c05_voxel_boundary(cells)
+        if res is not None:
+            break
+    else:
+        raise RuntimeError("no manifold voxel solid")
+    verts, faces = res
+    r = rng.random()
+    if r < 0.5:
+        spacing = np.ones(3)
+    elif r < 0.8:
+        spacing = 2.0 ** rng.integers(-2, 3, size=3)
+    else:
+        spacing = np.exp(rng.uniform(-1, 1, size=3))
+    tets = []
+    for c in cells:
+        for kt in _C05_KUHN:
+            tets.append([(np.array(c) + np.array(corner)) * spacing for corner in kt])
+    boxes = np.array([[np.array(c) * spacing, (np.array(c) + 1) * spacing] for c in cells])
+    return {"kind": "voxel:" + kind, "cells": cells, "spacing": spacing, "vertices": verts * spacing,
+            "faces": faces, "tets": np.array(tets, dtype=float), "boxes": boxes}
+
+
+_C05_RECTILINEAR = {
+    # ccw outlines on the integer grid with a decomposition into rectangles (x0, y0, x1, y1)
+    "L": ([(0, 0), (3, 0), (3, 1), (1, 1), (1, 3), (0, 3)], [(0, 0, 3, 1), (0, 1, 1, 3)]),
+    "U": ([(0, 0), (3, 0), (3, 3), (2, 3), (2, 1), (1, 1), (1, 3), (0, 3)], [(0, 0, 3, 1), (0, 1, 1, 3), (2, 1, 3, 3)]),
+    "C": ([(0, 0), (3, 0), (3, 1), (1, 1), (1, 2), (3, 2), (3, 3), (0, 3)], [(0, 0, 3, 1), (0, 1, 1, 2), (0, 2, 3, 3)]),
+    "T": ([(1, 0), (2, 0), (2, 2), (3, 2), (3, 3), (0, 3), (0, 2), (1, 2)], [(1, 0, 2, 2), (0, 2, 3, 3)]),
+    "plus": ([(1, 0), (2, 0), (2, 1), (3, 1), (3, 2), (2, 2), (2, 3), (1, 3), (1, 2), (0, 2), (0, 1), (1, 1)],
+             [(1, 0, 2, 3), (0, 1, 1, 2), (2, 1, 3, 2)]),
+    "Z": ([(0, 0), (2, 0), (2, 1), (3, 1), (3, 2), (1, 2), (1, 1), (0, 1)], [(0, 0, 2, 1), (1, 1, 3, 2)]),
+}
+
+
+def c05_extruded_polygon(rng, kind=None):
+    """A right prism over a simple non-convex polygon, in model coordinates, with merged faces (the two
+    polygonal caps and one quadrilateral per side).  dict(kind, poly (n,2) ccw, tris2 (m,3,2) a triangulation
+    of the polygon, z0, z1, vertices, faces, tets)."""
+    names = list(_C05_RECTILINEAR) + ["star", "star", "zigzag"]
+    kind = kind or names[int(rng.integers(len(names)))]
+    if kind in _C05_RECTILINEAR:
+        outline, rects = _C05_RECTILINEAR[kind]
+        sx, sy = (1.0, 1.0) if rng.random() < 0.5 else tuple(2.0 ** rng.integers(-1, 2, size=2))
+        poly = np.array(outline, dtype=float) * [sx, sy]
+        tris2 = []
+        for (x0, y0, x1, y1) in rects:
+            a, b, c, d = (x0 * sx, y0 * sy), (x1 * sx, y0 * sy), (x1 * sx, y1 * sy), (x0 * sx, y1 * sy)
+            tris2 += [[a, b, c], [a, c, d]]
+        if rng.random() < 0.5:  # start the outline elsewhere (the first corner may then be reflex)
+            poly = np.roll(poly, -int(rng.integers(len(poly))), axis=0)
+    elif kind == "star":
+        # star-shaped about the origin: fan triangulation from the origin
+        for _ in range(200):
+            n = int(rng.integers(5, 13))
+            ang = np.sort(rng.uniform(0, 2 * np.pi, size=n))
+            if np.min(np.diff(np.r_[ang, ang[0] + 2 * np.pi])) < 0.25 or np.max(np.diff(np.r_[ang, ang[0] + 2 * np.pi])) > 2.6:
+                continue
+            rad = rng.uniform(0.35, 1.0, size=n)
+            poly = np.c_[rad * np.cos(ang), rad * np.sin(ang)]
+            # corners must be clearly convex or clearly reflex (polytri's ear test has a relative threshold)
+            a, b, c = np.roll(poly, 1, axis=0), poly, np.roll(poly, -1, axis=0)
+            cr = (b[:, 0] - a[:, 0]) * (c[:, 1] - b[:, 1]) - (b[:, 1] - a[:, 1]) * (c[:, 0] - b[:, 0])
+            if np.min(np.abs(cr)) > 0.05 and np.any(cr < 0):
+                break
+        else:
+            raise RuntimeError("no star polygon")
+        tris2 = [[(0.0, 0.0), tuple(poly[i]), tuple(poly[(i + 1) % n])] for i in range(n)]
+    elif kind == "zigzag":
+        # a saw: bottom edge straight, top edge with teeth; decomposed into vertical strips
+        m = int(rng.integers(2, 5))
+        xs = np.arange(2 * m + 1, dtype=float)
+        hs = np.where(np.arange(2 * m + 1) % 2 == 0, 2.0, 1.0) + rng.integers(0, 2, size=2 * m + 1) * 0.5
+        top = [(xs[i], hs[i]) for i in range(2 * m, -1, -1)]
+        poly = np.array([(0.0, 0.0), (xs[-1], 0.0)] + top, dtype=float)
+        tris2 = []
+        for i in range(2 * m):
+            a, b, c, d = (xs[i], 0.0), (xs[i + 1], 0.0), (xs[i + 1], hs[i + 1]), (xs[i], hs[i])
+            tris2 += [[a, b, c], [a, c, d]]
+    else:
+        raise ValueError(kind)
+    tris2 = np.array(tris2, dtype=float)
+    z0 = 0.0
+    z1 = float(rng.choice([0.5, 1.0, 2.0])) if rng.random() < 0.6 else float(np.exp(rng.uniform(-1, 1)))
+    n = len(poly)
+    verts = np.vstack([np.c_[poly, np.full(n, z0)], np.c_[poly, np.full(n, z1)]])
+    faces = [list(range(n - 1, -1, -1)), list(range(n, 2 * n))]
+    for i in range(n):
+        j = (i + 1) % n
+        faces.append([i, j, n + j, n + i])
+    tets = []
+    for t in tris2:
+        a0, b0, c0 = [np.r_[p, z0] for p in t]
+        a1, b1, c1 = [np.r_[p, z1] for p in t]
+        tets += [[a0, b0, c0, c1], [a0, b0, c1, b1], [a0, b1, c1, a1]]
+    return {"kind": "extruded:" + kind, "poly": poly, "tris2": tris2, "z0": z0, "z1": z1,
+            "vertices": verts, "faces": faces, "tets": np.array(tets, dtype=float)}
+
+
+def c05_point_triangle(p, tri):
+    """closest points of the triangles tri (T,3,3) to the points p (N,3): returns (dist (N,T), bary (N,T,3)).
+    Ericson's region classification, vectorised; independent of coxeter."""
+    p = np.asarray(p, dtype=float)[:, None, :]
+    a, b, c = tri[None, :, 0, :], tri[None, :, 1, :], tri[None, :, 2, :]
+    ab, ac, ap = b - a, c - a, p - a
+    d1 = np.sum(ab * ap, -1)
+    d2 = np.sum(ac * ap, -1)
+    bp = p - b
+    d3 = np.sum(ab * bp, -1)
+    d4 = np.sum(ac * bp, -1)
+    cp = p - c
+    d5 = np.sum(ab * cp, -1)
+    d6 = np.sum(ac * cp, -1)
+    va = d3 * d6 - d5 * d4
+    vb = d5 * d2 - d1 * d6
+    vc = d1 * d4 - d3 * d2
+    shape = d1.shape
+    w = np.zeros(shape + (3,))
+    done = np.zeros(shape, dtype=bool)
+
+    def put(mask, wa, wb, wc):
+        nonlocal done
+        m = mask & ~done
+        w[..., 0] = np.where(m, wa, w[..., 0])
+        w[..., 1] = np.where(m, wb, w[..., 1])
+        w[..., 2] = np.where(m, wc, w[..., 2])
+        done = done | m
+    one, zero = np.ones(shape), np.zeros(shape)
+    with np.errstate(divide="ignore", invalid="ignore"):
+        put((d1 <= 0) & (d2 <= 0), one, zero, zero)
+        put((d3 >= 0) & (d4 <= d3), zero, one, zero)
+        put((d6 >= 0) & (d5 <= d6), zero, zero, one)
+        t = d1 / (d1 - d3)
+        put((vc <= 0) & (d1 >= 0) & (d3 <= 0), 1 - t, t, zero)
+        t = d2 / (d2 - d6)
+        put((vb <= 0) & (d2 >= 0) & (d6 <= 0), 1 - t, zero, t)
+        t = (d4 - d3) / ((d4 - d3) + (d5 - d6))
+        put((va <= 0) & ((d4 - d3) >= 0) & ((d5 - d6) >= 0), zero, 1 - t, t)
+        den = va + vb + vc
+        put(np.ones(shape, dtype=bool), va / den, vb / den, vc / den)
+    w = np.nan_to_num(w)
+    q = w[..., 0:1] * a + w[..., 1:2] * b + w[..., 2:3] * c
+    return np.linalg.norm(p - q, axis=-1), w
+
+
+def c05_rect_distance(p, lo, hi):
+    """distance of points p (N,3) to axis-aligned boxes/rectangles [lo, hi] (M,3) each: (N,M)."""
+    p = np.asarray(p, dtype=float)[:, None, :]
+    d = np.maximum(np.maximum(lo[None] - p, p - hi[None]), 0.0)
+    return np.linalg.norm(d, axis=-1)
+
+
+def c05_segment_distance2(p, a, b):
+    """distance of 2-D points p (N,2) to segments a->b (M,2): (N,M)."""
+    p = np.asarray(p, dtype=float)[:, None, :]
+    ab = (b - a)[None]
+    t = np.clip(np.sum((p - a[None]) * ab, -1) / np.sum(ab * ab, -1), 0.0, 1.0)
+    q = a[None] + t[..., None] * ab
+    return np.linalg.norm(p - q, axis=-1)
